@@ -97,8 +97,10 @@ def prefix_loop_shapes(rng, n):
         w = bytes(rng.choice(b"abc") for _ in range(rng.choice([1, 1, 2])))
         v = bytes(rng.choice(b"abc") for _ in range(rng.choice([1, 2])))
         lit = lambda b: N("lit", bs=b, form="s")
+        # (a timing-strict marker alone in a clause that another clause extends must be refused by the compiler; accepted, it would fire for the loser)
         bodies = [lambda i: [N("assign", var="m", e=N("num", v=i + 1, text=str(i + 1)))], lambda i: [], lambda i: [N("yield", code="Y%d" % i)],
-                  lambda i: [N("assign", var="m", e=N("num", v=i + 1, text=str(i + 1))), N("yield", code="Y%d" % i)]]
+                  lambda i: [N("assign", var="m", e=N("num", v=i + 1, text=str(i + 1))), N("yield", code="Y%d" % i)], lambda i: [N("hook", name="h%d" % i)],
+                  lambda i: [N("hook", name="h%d" % i), N("assign", var="m", e=N("num", v=i + 1, text=str(i + 1)))]]
         other = bytes([rng.choice([c for c in b"abcd" if c != w[0]])]) + bytes(rng.choice(b"ab") for _ in range(rng.choice([0, 1])))
         if rng.random() < 0.5:
             clauses = [N("clause", preds=[lit(w + v), lit(w)], body=rng.choice(bodies[:2])(0), prio=None)]
@@ -111,7 +113,7 @@ def prefix_loop_shapes(rng, n):
         rng.shuffle(clauses)
         case = N("case", clauses=clauses, greedy=True)
         outs = [N("out", name="m", typ="int", signed=None, width=None, default=0)]
-        out.append(N("prog", outs=outs, hooks=[], fcodes=[], ycodes=["Y0", "Y1", "Y2", "Y3"], macros=[], body=[N("loop", label=None, body=[case])], args=["-fyield-support"]))
+        out.append(N("prog", outs=outs, hooks=["h0", "h1", "h2"], fcodes=[], ycodes=["Y0", "Y1", "Y2", "Y3"], macros=[], body=[N("loop", label=None, body=[case])], args=["-fyield-support"]))
     return out
 
 
@@ -142,7 +144,17 @@ def open_token_shapes(rng, n):
                 body.insert(0, N("assign", var="m", e=N("num", v=i + 1, text=str(i + 1))))
             clauses.append(N("clause", preds=[N("rx", tree=tree, binary=False)], body=body, prio=None))
         greedy = rng.random() < 0.6
-        if rng.random() < 0.3:
+        if rng.random() < 0.35:
+            # two tokens built on inverted classes: A = p[^xy]+ leaves on x or y (listed explicitly), B = [^y-c]+ lists y (and more) but not x:
+            # the symbols A leaves on do not share one transition in the start state
+            x, y = rng.choice([(48, 49), (49, 48), (48, 50)])
+            pfx = rng.choice([97, 98])
+            a_tree = ("seq", [("ch", pfx), ("op", ("set", [("ch", x), ("ch", y)], True), "+")])
+            b_tree = ("op", ("set", [("ch", y), ("range", 97, 99)] + ([("ch", 50)] if 50 not in (x, y) and rng.random() < 0.5 else []), True), "+")
+            clauses = [N("clause", preds=[N("rx", tree=b_tree, binary=False)], body=[N("yield", code="Y0")], prio=None),
+                       N("clause", preds=[N("rx", tree=a_tree, binary=False)], body=[N("yield", code="Y1")], prio=None)]
+            rng.shuffle(clauses)
+        elif rng.random() < 0.3:
             clauses.append(N("clause", preds=["else"], body=[N("yield", code="Y3"), N("match", p=N("rx", tree=("any",), binary=False))], prio=None))
         case = N("case", clauses=clauses, greedy=greedy)
         outs = [N("out", name="m", typ="int", signed=None, width=None, default=0)]
@@ -175,7 +187,7 @@ def run(ctx: Ctx):
         else:
             k = (r.exc_type or r.status) + ": " + (r.exc_msg or "")[:50].split("\n")[0]
             rejected[k] = rejected.get(k, 0) + 1
-    c01.add_shapes(ctx, rng, pool, prefix_loop_shapes(rng, 16 if quick else 200), "prefix_loop_shapes_accepted")
+    c01.add_shapes(ctx, rng, pool, prefix_loop_shapes(rng, 24 if quick else 300), "prefix_loop_shapes_accepted")
     c01.add_shapes(ctx, rng, pool, open_token_shapes(rng, 12 if quick else 150), "open_token_shapes_accepted", levels=("-O0", "-O2", "-O3", "-O3"))
     ctx.cov.update({"case_programs_generated": tried, "case_programs_accepted": len(pool)})
     ctx.extra["accepted_shapes"] = kinds
